@@ -190,6 +190,7 @@ M2sDenotes(c, out) ==
 Midi2FreqOp(m) == CASE m.t = "num"  -> [t |-> "a4", tw |-> RSub(m.v, R(69))]
                     [] m.t = "inf"  -> [t |-> "inf"]
                     [] m.t = "ninf" -> [t |-> "zero"]
+                    [] m.t = "error" -> [t |-> "error"]
                     [] OTHER        -> [t |-> "nan"]
 Freq2MidiOp(f) == CASE f.t = "a4"   -> Num(RAdd(R(69), f.tw))
                     [] f.t = "inf"  -> Special("inf")
